@@ -6,7 +6,7 @@ import sys
 import z3
 
 from . import theory as T
-from . import types as TY
+from . import tys as TY
 from .sv import (SV, NONE, MObj, Frame, Closure, BoundMethod, BuiltinRef, OutOfSubset, StaleContract, SymRaise,
                  ReturnEx, PathEnd, BreakEx, ContinueEx, mk_int, mk_bool, mk_real, mk_str, mk_bytes)
 from .interp import Interp, Path, Obligation, as_int_term, as_real_term, const_int, is_num
